@@ -78,6 +78,8 @@ def _hash_inputs(binary, tier, seed, pw):
         h.update(open(f, "rb").read())
     for f in (__file__, os.path.join(vlib.VERIF, "known_findings.json")):
         h.update(open(f, "rb").read())
+    for f in sorted(glob.glob(os.path.join(vlib.HARNESS_SRC, "cmd/msgvalconc/*.go"))) + sorted(glob.glob(os.path.join(vlib.REPO, "message/validation/*.go"))):
+        h.update(open(f, "rb").read())
     h.update(("%s|%s|%s" % (tier, seed, pw)).encode())
     return h.hexdigest()[:20]
 
@@ -205,6 +207,53 @@ def _attack(cfg, pw):
     return cfg, vlib.trace_behaviour(r.trace, "attack-" + cfg.replace("MsgValidation_", "").replace(".cfg", ""), "attack:" + cfg), r
 
 
+def _schedules(tier, seed, pw):
+    """Deterministic, schedule-controlled concurrency (MsgValidationConc): Arrive / Enter / Leave interleavings of calls on
+    one validator, replayed with the verif hook VerifValidateSSVMessage (a gate inside the critical section)."""
+    hook = os.path.join(vlib.REPO, "message/validation/verif_hooks.go")
+    if not os.path.exists(hook):
+        return dict(skipped="the tree under test has no message/validation/verif_hooks.go (build tag verif): the "
+                            "schedule-controlled concurrency part of C09 cannot be built")
+    binary = vlib.go_build("msgvalconc")
+    wd = os.path.join(WD, "sched")
+    os.makedirs(wd, exist_ok=True)
+    behs, stats, states, generated = [], {}, 0, 0
+    for c in ("conc", "conc_apq"):
+        cfg = "MsgValidation_%s.cfg" % c
+        rg, nodes, edges, inits = vlib.tlc_dump_graph("MsgValidationConc", "c.cfg", name="mvs-" + c, timeout=900, workers=2,
+                                                      files={"c.cfg": cfg_text(cfg, pw)})
+        if not vlib.expect_tlc_ok(rg, cfg):
+            raise vlib.MachineryError("the faithful concurrency spec violates %s in %s (model error, not a verdict)" % (rg.violation, cfg))
+        if not rg.finished:
+            raise vlib.MachineryError("the concurrency config %s did not finish" % cfg)
+        bs, gs = vlib.graph_behaviours(nodes, edges, inits, seed, max_extra=0 if tier == "quick" else 400, kind="cover-" + c)
+        behs += bs
+        stats[c] = gs
+        states += rg.distinct
+        generated += rg.generated
+    attacks = 0
+    for c in ("conc_attack_exclusion", "conc_attack_commit", "conc_attack_commit_apq"):
+        cfg = "MsgValidation_%s.cfg" % c
+        r = vlib.tlc("MsgValidationConc", "a.cfg", name="mvsa-" + c, workers=1, timeout=600, files={"a.cfg": cfg_text(cfg, pw)}, heap=JVM_SMALL)
+        if r.error:
+            raise vlib.MachineryError("attack config %s: %s" % (cfg, r.error[:1500]))
+        generated += r.generated
+        if r.violation:
+            behs.append(vlib.trace_behaviour(r.trace, "attack-" + c, "attack:lockNotExclusive"))
+            attacks += 1
+    inp = os.path.join(wd, "behaviours.ndjson")
+    vlib.write_ndjson(inp, behs)
+    res, repros = _driver(binary, ["-in", inp, "-out", os.path.join(wd, "sched.json"), "-repeat", "1" if tier == "quick" else "3"])
+    log("[msgval] " + _el() + " schedules: %d Arrive/Enter/Leave interleavings (%d attack traces of the weakened lock) replayed with the gate hook: "
+        "%d divergences, %d attack steps refused, %d timeouts" % (res["behaviours"], attacks, res["counters"].get("divergences", 0),
+                                                                   res["counters"].get("attack_steps_refused", 0), res["counters"].get("schedule_timeouts", 0)))
+    return dict(behaviours=res["behaviours"], steps=res["steps"], nontrivial=res["nontrivial"], attack_traces=attacks, graph=stats,
+                states=states, generated=generated, divergences=res["counters"].get("divergences", 0),
+                refused=res["counters"].get("attack_steps_refused", 0), timeouts=res["counters"].get("schedule_timeouts", 0),
+                violations=res["violations"], repros=repros, notes=res["notes"][:5],
+                sigcounts={k[4:]: v for k, v in res["counters"].items() if k.startswith("sig:")}, sample=res["samples"][:1])
+
+
 def run_shared(tier, seed):
     os.makedirs(WD, exist_ok=True)
     with open(os.path.join(WD, "lock"), "w") as lf:
@@ -254,6 +303,7 @@ def _run(tier, seed, binary, pw):
         plain = [c for c in attack_cfgs if "_attack_" in c]
         rng.shuffle(plain)
         attack_cfgs = sorted(plain[:6]) + [c for c in attack_cfgs if "_gap_" in c]
+    sched_fut = pool.submit(_schedules, tier, seed, pw)
     att_futs = [pool.submit(_attack, c, pw) for c in attack_cfgs]
     wd = os.path.join(WD, "replay")
     os.makedirs(wd, exist_ok=True)
@@ -361,6 +411,18 @@ def _run(tier, seed, binary, pw):
             log("[msgval] " + _el() + " %-8s concurrent: %d batches of 8 goroutines under -race, %d recorded, %d unexplained by any order, %d race reports" %
                 (fam["name"], rc["behaviours"], len(lines), len(tv["mismatches"]), races))
         res["concurrent"] = conc
+    sched = sched_fut.result()
+    if "skipped" not in sched:
+        allv += [(v, sched["repros"], "schedule") for v in sched["violations"]]
+        res["states"] += sched["states"]
+        res["transitions"] += sched["generated"]
+        res["divergences"] += sched["divergences"]
+        res["traces"] += sched["behaviours"]
+        res["evaluations"] += sched["steps"]
+        res["nontrivial"] += sched["nontrivial"]
+        for k, v in sched["sigcounts"].items():
+            sigcounts[k] = sigcounts.get(k, 0) + v
+    res["schedules"] = {k: v for k, v in sched.items() if k not in ("violations", "repros")}
     res["sigcounts"] = sigcounts
     # violations with their replay files
     seen = set()
@@ -383,6 +445,8 @@ def _run(tier, seed, binary, pw):
 
 def finish(prop, tier, seed, res, t0):
     """Verdict + evidence of one property from the shared result."""
+    if prop == "C09" and "skipped" in res.get("schedules", {}):
+        raise vlib.MachineryError(res["schedules"]["skipped"])
     verdict = vlib.Verdict(prop)
     mine = [v for v in res["violations"] if v["prop"] == prop]
     for v in mine:
@@ -395,7 +459,7 @@ def finish(prop, tier, seed, res, t0):
     detail = dict(variant=res["variant"], binding_selftest=res.get("selftest"),
                   configs=[f["mc"] for f in fam], sweeps={f["name"]: f["sweep"] for f in fam}, trace_validation={f["name"]: f["trace"] for f in fam},
                   replay=res["replay"], attack_traces=res["attack_traces"], divergences=res["divergences"], signature_counts=res.get("sigcounts", {}),
-                  byte_level={f["name"]: f["bytes"] for f in fam}, concurrent=res.get("concurrent"), shared_run_wall_s=res.get("wall_s"))
+                  byte_level={f["name"]: f["bytes"] for f in fam}, concurrent=res.get("concurrent"), schedules=res.get("schedules"), shared_run_wall_s=res.get("wall_s"))
     if prop == "C08":
         rule = ("structured half (model checking): every (accepted prefix, message class, time point) of the spec's alphabets up to the sweep depth is "
                 "concretised with real SSZ/JSON encoding and real keys and passed to ValidatePubsubMessage under recover(); non-trivial = distinct "
@@ -410,7 +474,9 @@ def finish(prop, tier, seed, res, t0):
         rule = ("every (accepted prefix, message class, time point) of the alphabets up to the sweep depth on the real validator; the monitor evaluates "
                 "the statement of C09 on the concrete accepted bytes, clock and history, independently of the operational spec; TLC checks "
                 "accept => GossipOK on every edge of every config and validates every recorded call; non-trivial = distinct prefixes with >= 1 "
-                "previously accepted message (replayed behaviours: >= 2 accepted messages)")
+                "previously accepted message (replayed behaviours: >= 2 accepted messages; schedules: >= 3 concurrent calls). Concurrency: every "
+                "Arrive/Enter/Leave interleaving of MsgValidationConc (graph cover) and the 3-party attack schedules of the weakened lock are replayed "
+                "deterministically with a gate inside the critical section (verif hook)")
         assumptions = ["exhaustive results hold for the stated alphabets (committee 4 and 7, <= 2 tracked single signers, the listed slot/round/time classes)",
                        "the clock is virtual (re-based genesis); time points are kept >= 0.5 s away from every boundary; steps slower than 300 ms are not compared",
                        "BLS signatures are not verified by the gate (as in the code); RSA envelopes use real generated operator keys",
@@ -433,6 +499,13 @@ def replay(prop, path):
         return 0
     os.makedirs(WD, exist_ok=True)
     outp = os.path.join(WD, "repro_result.json")
+    if r.get("kind") == "schedule":
+        res, _ = _driver(vlib.go_build("msgvalconc"), ["-repro", "-in", path, "-n", str(r.get("n", 4)), "-fork", str(r.get("fork", 100000)), "-out", outp])
+        verdict = vlib.Verdict(prop)
+        for v in res["violations"]:
+            if ("C08" if v["signature"].startswith(C08_SIGS) else "C09") == prop:
+                verdict.violation(v["signature"], v["description"][:600], path)
+        return verdict.report()
     res, _ = _driver(binary, ["-mode", "repro", "-in", path, "-n", str(r.get("n", 4)), "-fork", str(r.get("fork", 100000)), "-out", outp])
     verdict = vlib.Verdict(prop)
     for v in res["violations"]:
